@@ -440,6 +440,21 @@ def noElimFace (f : Nat) : Bool := (G.fnodes f).all (fun v => !G.elimAt v)
 
 def admissible : Bool := (List.range G.numFaces).all (fun f => G.isNeu f || G.noElimFace f)
 
+/-- 2-D manifold condition on the topology arrays (decidable input condition, evaluated by the
+    driver): a node has at most one more face than cells (interior node: equal; boundary node: one
+    more).  It makes EVERY Dirichlet/Neumann assignment admissible (`admissible_of_manifold`). -/
+def manifold : Bool :=
+  (List.range G.numNodes).all (fun v => decide ((G.facesOf v).length ≤ (G.cellsOf v).length + 1))
+
+/-- momentum balance of cell `c` for face tractions `T`: `Σ_f sgn(f,c) T_f` (what
+    `assemble_matrix_rhs` forms with the divergence `div = cell_facesᵀ`) -/
+def cellBalance (T : Nat → Vec 2) (c : Nat) : Vec 2 := fun a =>
+  sumList ((List.range G.numFaces).map (fun f =>
+    sumList (((G.fcells f).filter (fun p => p.1 == c)).map (fun p => p.2 * T f a))))
+
+/-- the cell is closed: `Σ_f sgn(f,c) n_f = 0` -/
+def cellClosed (c : Nat) : Prop := ∀ a, G.cellBalance G.fnAt c a = 0
+
 end GridS
 
 end PorepyVerif.C13
